@@ -8,7 +8,7 @@ VARIABLE st
 
 KeySets == SUBSET (1..NKeys)
 Signers == {None, Stranger} \cup 1..NKeys
-Shapes == {"ops", "empty", "unsorted"}    \* unsorted: a pack with operations whose tree lists its entries out of git's canonical order
+Shapes == {"ops", "empty", "unsorted", "chained"}    \* unsorted: a pack with operations whose tree lists its entries out of git's canonical order; chained: the second signed commit of its author in the bug (each commit is judged by the keys of its own time)
 Commits == {[et |-> e, signer |-> s, altered |-> a, shape |-> sh] : e \in 1..(MaxT + 1), s \in Signers, a \in BOOLEAN, sh \in Shapes} \
            {[et |-> e, signer |-> None, altered |-> TRUE, shape |-> sh] : e \in 1..(MaxT + 1), sh \in Shapes}
 
